@@ -94,6 +94,11 @@ def cases(tier, seed):
             for sw in SWITCHES:
                 for ap in (False, True):
                     yield {"target": t, "seq": [[cl, sw, ap]], "sub": False}
+    # a program name that cannot be stored in an image (not Latin-1): whatever happens, an existing target must not be damaged
+    for t in ("absent", "cas1", "dsk1", "rawbin"):
+        for sw in SWITCHES:
+            for ap in (False, True):
+                yield {"target": t, "seq": [["asm.uni", sw, ap]], "sub": False}
     # sequences of two (and three) invocations on the same path
     steps = [[cl, sw, ap] for cl in (CLIS if thorough else ["asm"]) for sw in SWITCHES for ap in (False, True)]
     for t in (TARGETS if thorough else ["absent", "empty", "cas1", "dsk1", "rawbin", "bytes"]):
@@ -114,7 +119,7 @@ def cases(tier, seed):
 
 
 def new_files_for(cl):
-    if cl == "asm":
+    if cl in ("asm", "asm.uni"):
         return [{"name": "PROG", "type": 2, "dtype": 0, "load": 0x0E00, "exec": 0x0E00, "data": PROG_BYTES}]
     return [{"name": SRC_FILE["name"], "type": 2, "dtype": 0, "load": SRC_FILE["load"], "exec": SRC_FILE["exec"], "data": C.pattern(SRC_FILE["n"], SRC_FILE["pat"])}]
 
@@ -137,6 +142,8 @@ def check_case(case):
         os.chdir(td)
         with open("prog.asm", "w") as f:
             f.write("".join(ln + "\n" for ln in PROG))
+        with open("prog2.asm", "w") as f:
+            f.write("".join(ln + "\n" for ln in PROG[1:]))
         open("src.cas", "wb").write(tape.write([dict(name=SRC_FILE["name"], type=2, dtype=0, load=SRC_FILE["load"], exec=SRC_FILE["exec"],
                                                      data=C.pattern(SRC_FILE["n"], SRC_FILE["pat"]))]))
         open("src.dsk", "wb").write(dskfs.write([{"name": SRC_FILE["name"], "ext": "BIN", "type": 2, "dtype": 0,
@@ -152,6 +159,8 @@ def check_case(case):
             if case["sub"]:
                 args = (["prog.asm"] if cl == "asm" else ["src." + cl[3:]]) + ["--to_" + sw, "target.out"] + (["--append"] if ap else [])
                 status, out = cli.subprocess_cli("assembler.py" if cl == "asm" else "file_util.py", args, td)
+            elif cl == "asm.uni":
+                status, out = cli.assembler("prog2.asm", name="\u03a9mega", **kw)
             elif cl == "asm":
                 status, out = cli.assembler("prog.asm", **kw)
             else:
@@ -183,7 +192,10 @@ def check_case(case):
                     bad("target left alone without any message", "a message", "empty stdout")
                 elif not any(w in out.lower() for w in ("exist", "not of type", "target.out", "unable", "append")):
                     bad("message does not say why nothing was written", "mentions the target or the reason", out.strip()[:100])
-            if changed:
+            if changed and cl == "asm.uni" and sw != "bin":
+                bad("target damaged by a save that cannot succeed", "unchanged (the name cannot be stored) or a complete image",
+                    "{} ({} bytes); stdout: {}".format(ka, len(after) if after is not None else None, out.strip()[-80:]))
+            elif changed:
                 news = new_files_for(cl)
                 if sw == "bin":
                     if after != news[0]["data"]:
